@@ -70,7 +70,7 @@ def main():
     }
     json.dump(m, open(os.path.join(HERE, "MANIFEST.json"), "w"), indent=1)
 
-HOOK_COMMITS = ["36bce13", "6fcc21e", "c2c0393", "7ab197e"]
+HOOK_COMMITS = ["36bce13", "6fcc21e", "c2c0393", "7ab197e", "c8d31e5"]
 
 if __name__ == "__main__":
     main()
